@@ -26,6 +26,32 @@ fn check_err<T: Ord + Default>(num: T) -> Result<T> {
 
 pub fn pipe() -> Result<(File, File)> {
     let mut fds = [0 as c_int; 2];
+    // Create the pipe close-on-exec where the OS can do that atomically.  With
+    // plain pipe() both ends are inheritable until they are dropped or marked,
+    // and a child forked meanwhile by another thread keeps them open, so
+    // end-of-file no longer propagates.  The ends meant for our own child are
+    // passed on by dup2(), which clears the flag on the new descriptor.
+    #[cfg(any(
+        target_os = "linux",
+        target_os = "android",
+        target_os = "freebsd",
+        target_os = "dragonfly",
+        target_os = "netbsd",
+        target_os = "openbsd",
+        target_os = "illumos",
+        target_os = "solaris"
+    ))]
+    check_err(unsafe { libc::pipe2(fds.as_mut_ptr(), libc::O_CLOEXEC) })?;
+    #[cfg(not(any(
+        target_os = "linux",
+        target_os = "android",
+        target_os = "freebsd",
+        target_os = "dragonfly",
+        target_os = "netbsd",
+        target_os = "openbsd",
+        target_os = "illumos",
+        target_os = "solaris"
+    )))]
     check_err(unsafe { libc::pipe(fds.as_mut_ptr()) })?;
     Ok(unsafe { (File::from_raw_fd(fds[0]), File::from_raw_fd(fds[1])) })
 }
